@@ -74,7 +74,7 @@ PROPS = {
     },
     "C16": {
         "kani": ["padding_contract:kani-complete"],
-        "units": ["verify", "nonce", "gens", "ctors", "codec"],
+        "units": ["verify", "nonce", "gens", "ctors", "codec", "serde"],
         "design_ref": "DESIGN.md section 7, C16",
         "technique": "contract-based deductive verification (Verus): built-in panic-freedom obligations (index, overflow, unwrap, shift) and dependency preconditions (dalek multiscalar length assertions) on the real verification path",
         "claim": "verify_batch, verify, the consistency check, the decompression helpers, nonce/encode_usize, compute_generator_padding and the generator iterator are proved "
